@@ -57,6 +57,17 @@ func (core *JApiCore) drainCurrentScanner() *jerr.JApiError {
 // simply decides which function to call based on lexeme type
 func (core *JApiCore) next(lexeme scanner.Lexeme) *jerr.JApiError {
 	switch lexeme.Type() {
+	case scanner.Keyword, scanner.ContextExplicitClosing:
+		// do not belong to a directive being read
+	default:
+		if core.currentDirective == nil {
+			// e.g. "(" at the very beginning of a file, or something after the
+			// file name of the INCLUDE directive
+			return core.japiError(fmt.Sprintf("unexpected %s, there is no directive it can belong to", lexeme.Type()), lexeme.Begin())
+		}
+	}
+
+	switch lexeme.Type() {
 	case scanner.Keyword:
 		return core.processKeyword(lexeme)
 
